@@ -49,7 +49,8 @@ var (
 )
 
 func c14FuzzInit() {
-	dir, err := os.MkdirTemp("", "verif-c14fuzz-")
+	// bin/check points VERIF_FUZZ_TMP into its own work directory, which it removes on exit
+	dir, err := os.MkdirTemp(os.Getenv("VERIF_FUZZ_TMP"), "verif-c14fuzz-")
 	if err != nil {
 		c14FuzzErr = err
 		return
